@@ -12,6 +12,7 @@ import (
 	"math/big"
 		"sort"
 	"strings"
+	"time"
 
 	"github.com/formancehq/numscript/internal/interpreter"
 	"github.com/formancehq/numscript/internal/verifsim/core"
@@ -451,6 +452,7 @@ type Frozen struct {
 	meta   interpreter.AccountsMetadata
 	Mode   string // exact | superset
 	Shared bool
+	Pause  bool // free-running race mode: a ledger takes time to answer, calls of parallel runs overlap
 }
 
 func NewFrozen(in gen.Inputs, mode string, shared bool) *Frozen {
@@ -458,6 +460,9 @@ func NewFrozen(in gen.Inputs, mode string, shared bool) *Frozen {
 }
 
 func (f *Frozen) GetBalances(ctx context.Context, q interpreter.BalanceQuery) (interpreter.Balances, error) {
+	if f.Pause {
+		time.Sleep(30 * time.Microsecond)
+	}
 	if f.Mode == ModeSuperset && f.Shared {
 		return f.truth, nil
 	}
